@@ -67,3 +67,17 @@ def _post_c20(run, shards, stats, fps, sanlog):
 
 
 POST['C20'] = _post_c20
+
+
+def _crashkey_c03(key, shard, case):
+    """a crash / hang while the planner works on a problem definition that was switched without clear() is a consequence of
+    the same root cause as the wrong end points of that history: one key per planner (the history is flushed by the harness
+    before every operation)"""
+    info = getattr(shard, 'last_info', None)
+    subj = getattr(shard, 'last_subject', None)
+    if info and info.get('dirty_switch') and subj:
+        return 'C03:stale-query-after-setProblemDefinition:' + subj
+    return key
+
+
+CRASHKEY['C03'] = _crashkey_c03
